@@ -19,6 +19,7 @@ macro_rules! with_prop {
             "C10" => $m!(props::C10, $($args)*),
             "C11" => $m!(props::C11, $($args)*),
             "C13" => $m!(props::C13, $($args)*),
+            "C14" => $m!(props::C14, $($args)*),
             "C16" => $m!(props::C16, $($args)*),
             "C17" => $m!(props::C17, $($args)*),
             "C18" => $m!(props::C18, $($args)*),
